@@ -330,6 +330,11 @@ func c14(r *core.Report) {
 		}
 	}
 
+	// ---- C14-RESP-FENCE (shared with C11): the caller's response buffer is the caller's again when Ask
+	// returns
+	r.Rule("C14-RESP-FENCE", "mbapp writes the asker's response buffer only under the ask's once, and a cancelled Ask passes through that once before returning", 2)
+	ruleRespFence(r, "C14-RESP-FENCE")
+
 	// ---- C14-FREELIST
 	r.Rule("C14-FREELIST", "queue buffers: back to the freelist only after the callback, zeroed; payload rebuilt from length 0 before queueing", 3)
 	{
@@ -449,3 +454,105 @@ func rebuiltFromZero(p *core.Prog, v ssa.Value, depth int) bool {
 }
 
 var _ = token.ADD
+
+// ruleRespFence (shared by C14 and C11): mbapp copies an ask's reply into the caller's buffer on the
+// receive worker. Ask may give up first (context ended). The two are fenced by the ask's sync.Once:
+// the copy runs inside once.Do, and the giving-up path runs once.Do too (abort), so it either wins —
+// the copy never happens — or waits until the copy has finished. Without the abort on the cancel path a
+// late reply is written into a buffer the caller already owns again.
+func ruleRespFence(r *core.Report, ruleID string) {
+	p := r.P
+	aw := needFn(r, "p/mbapp", "ask.await")
+	cm := needFn(r, "p/mbapp", "ask.complete")
+	onceF := needField(r, "p/mbapp", "ask", "once")
+	bufF := needField(r, "p/mbapp", "ask", "respBuf")
+	if aw == nil || cm == nil || onceF == nil || bufF == nil {
+		return
+	}
+	isOnceDo := func(in ssa.Instruction) bool {
+		ci, ok := in.(ssa.CallInstruction)
+		if !ok || core.CalleeName(ci.Common()) != "(*sync.Once).Do" || len(ci.Common().Args) < 1 {
+			return false
+		}
+		f, _ := core.FieldOfAddr(ci.Common().Args[0])
+		return core.SameField(f, onceF)
+	}
+	var passesOnce func(fn *ssa.Function, d int) bool
+	passesOnce = func(fn *ssa.Function, d int) bool {
+		if fn == nil || fn.Blocks == nil || d > 2 {
+			return false
+		}
+		return mustPass(fn, func(in ssa.Instruction) bool {
+			if isOnceDo(in) {
+				return true
+			}
+			ci, ok := in.(ssa.CallInstruction)
+			if !ok {
+				return false
+			}
+			g := core.StaticCallee(ci.Common())
+			return g != nil && p.InModule(g) && passesOnce(g, d+1)
+		})
+	}
+	// (1) every copy into respBuf lies in a literal handed to once.Do
+	n1, ok1 := 0, true
+	for _, fn := range p.ModFuncs {
+		if fn.Pkg != aw.Pkg || strings.Contains(fn.String(), "_test") {
+			continue
+		}
+		for _, in := range core.AllInstrs(fn) {
+			c, ok := in.(*ssa.Call)
+			if !ok || !core.IsBuiltin(c.Common(), "copy") {
+				continue
+			}
+			if !core.DerivesFrom(c.Call.Args[0], func(x ssa.Value) bool {
+				f, _ := core.FieldRead(x)
+				return core.SameField(f, bufF)
+			}) {
+				continue
+			}
+			n1++
+			// fn must be a literal bound into a once.Do call of its parent
+			fenced := false
+			if par := fn.Parent(); par != nil {
+				for _, pin := range core.AllInstrs(par) {
+					if isOnceDo(pin) {
+						if core.ClosureFn(pin.(ssa.CallInstruction).Common().Args[1]) == fn {
+							fenced = true
+						}
+					}
+				}
+			}
+			ok1 = ok1 && fenced
+		}
+	}
+	r.Check(n1 > 0 && ok1, ruleID, "copy into ask.respBuf", p.Pos(cm.Pos()), "the reply is copied into the caller's buffer only inside the ask's once.Do", "the caller's response buffer is written outside the ask's once: a reply can be copied while, or after, Ask gives up")
+	// (2) the cancel path of await goes through the once
+	n2, ok2 := 0, true
+	for _, sel := range core.AllSelects(aw) {
+		for i, st := range sel.States {
+			cr := core.ClassifyChan(st.Chan)
+			if st.Dir != types.RecvOnly || cr.Kind != "ctx" {
+				continue
+			}
+			n2++
+			blk := core.SelectCaseBlock(sel, i)
+			if blk == nil {
+				ok2 = false
+				continue
+			}
+			ok2 = ok2 && mustPassAt(aw, blk.Instrs[0], func(in ssa.Instruction) bool {
+				if isOnceDo(in) {
+					return true
+				}
+				ci, ok := in.(ssa.CallInstruction)
+				if !ok {
+					return false
+				}
+				g := core.StaticCallee(ci.Common())
+				return g != nil && p.InModule(g) && passesOnce(g, 0)
+			})
+		}
+	}
+	r.Check(n2 > 0 && ok2, ruleID, core.FnName(aw)+" cancel path", p.Pos(aw.Pos()), "when the context ends, await runs the ask's once (abort) before returning", "await returns on a cancelled context without passing through the ask's once: a reply that arrives at that moment is still copied into the response buffer after Ask has returned it to the caller (a write into memory the caller owns again)")
+}
